@@ -5,7 +5,7 @@
     events, i.e. all completion orders and all executor poll orders. [summary evs] is what the
     history alone says about each dispatch: (abort handle state, result delivered by its future). *)
 From Coq Require Import List ZArith Bool.
-From LV Require Import Reactive.Action Reactive.ActionProofs.
+From LV Require Import Reactive.Action Reactive.ActionProofs Reactive.ActionBoundProofs.
 Import ListNotations.
 
 (** pending exactly while at least one dispatch is neither finished nor aborted *)
@@ -94,3 +94,10 @@ Theorem C17_run_until_idle_is_idle : forall b evs picks c,
   idle (run b (evs ++ [RunAll picks c])) = true.
 Proof. exact run_until_idle_is_idle. Qed.
 Print Assumptions C17_run_until_idle_is_idle.
+
+(** the version never runs ahead of the dispatches: after any history — idle or not, any
+    completion order, any aborts — it is at most the number of dispatches made so far *)
+Theorem C17_version_le_dispatches : forall evs,
+  version (run true evs) <= length (summary evs).
+Proof. exact version_le_dispatches. Qed.
+Print Assumptions C17_version_le_dispatches.
